@@ -162,3 +162,28 @@ func bitsEqual(a, b []float64) bool {
 	}
 	return true
 }
+
+// guarded returns a copy of vals that is a sub-slice of a larger array (spare capacity filled with a sentinel) and a
+// function reporting whether the values, the length and the spare capacity are all still bit-identical: a callee that
+// appends to, sorts or otherwise writes through an argument is caught even when it stays within the capacity.
+func guarded(vals []float64) ([]float64, func() bool) {
+	const sentinel = -7.777e77
+	back := make([]float64, 2*len(vals)+8)
+	for i := range back {
+		back[i] = sentinel
+	}
+	copy(back, vals)
+	x := back[:len(vals)]
+	keep := append([]float64{}, vals...)
+	return x, func() bool {
+		if !bitsEqual(back[:len(vals)], keep) {
+			return false
+		}
+		for _, v := range back[len(vals):] {
+			if v != sentinel {
+				return false
+			}
+		}
+		return true
+	}
+}
